@@ -43,8 +43,8 @@ def gen_column(rng, kind, n, pattern="none"):
     if kind == "bytes":
         vals = [None if mm else rng.choice([b"", b"\x00\x01", b"abc", bytes([rng.randrange(256) for _ in range(3)])]) for mm in m]
         return pd.Series(vals, dtype=object)
-    if kind in ("dt_ns", "dt_us", "dt_ms", "dt_s", "dt_tz"):
-        unit = {"dt_ns": "ns", "dt_us": "us", "dt_ms": "ms", "dt_s": "s", "dt_tz": "ns"}[kind]
+    if kind in ("dt_ns", "dt_us", "dt_ms", "dt_s", "dt_tz", "dt_tzoff"):
+        unit = {"dt_ns": "ns", "dt_us": "us", "dt_ms": "ms", "dt_s": "s", "dt_tz": "ns", "dt_tzoff": "ns"}[kind]
         base = np.datetime64("2020-01-01T00:00:00", unit).astype("int64")
         step = {"ns": 10 ** 9, "us": 10 ** 6, "ms": 10 ** 3, "s": 1}[unit]
         ints = [base + rng.randrange(-10 ** 6, 10 ** 6) * step + (rng.randrange(0, step) if step > 1 else 0) for _ in range(n)]
@@ -60,6 +60,11 @@ def gen_column(rng, kind, n, pattern="none"):
             s[np.array(m, dtype=bool)] = pd.NaT
         if kind == "dt_tz":
             s = s.dt.tz_localize("UTC").dt.tz_convert(rng.choice(["Europe/Berlin", "UTC", "America/New_York"]))
+        if kind == "dt_tzoff":
+            # fixed offsets, the first with the sign carried by the minutes only; rows decide which, so every seed sees the first
+            import datetime as _dt
+            offs = [_dt.timedelta(minutes=-44), _dt.timedelta(hours=5, minutes=30), _dt.timedelta(hours=-3, minutes=-30)]
+            s = s.dt.tz_localize("UTC").dt.tz_convert(_dt.timezone(offs[0 if n % 3 != 2 else rng.randrange(1, 3)]))
         return s
     if kind in ("td_ms", "td_s"):
         # timedelta64 of a coarser unit: stored as microseconds, comes back in its own unit with the same durations
